@@ -178,9 +178,7 @@ def opWfB (c : CW) : Op Handle → Bool
   | .sassign e _ _ => !c.w.isLocked && c.w.isValid e
   | .sremove _ _ => !c.w.isLocked
   | .clearArch mask => !c.w.isLocked && c.w.archs.all (fun a => a.mask != mask || a.shared.ids.isEmpty)
-  | .dep comp extra =>
-    extra.all (fun x => decide (x < 128)) &&
-    c.w.archs.all (fun a => a.mask.all (fun x => (depsOf (addDependency c.w.deps comp extra) x).all (fun d => a.mask.contains d)))
+  | .dep _ extra => extra.all (fun x => decide (x < 128))
   | _ => true
 
 theorem opWfB_sound {c : CW} {op : Op Handle} (h : opWfB c op = true) : OpWf c op := by
@@ -250,13 +248,8 @@ theorem opWfB_sound {c : CW} {op : Op Handle} (h : opWfB c op = true) : OpWf c o
     simp only [Bool.or_eq_true, bne_iff_ne, ne_eq, List.isEmpty_iff] at this
     exact this.resolve_left (fun hne => hne hm)
   | dep comp extra =>
-    simp only [opWfB, Bool.and_eq_true] at h
-    refine ⟨fun x hx => by simpa using List.all_eq_true.mp h.1 x hx, ?_⟩
-    intro a ha x hx d hd
-    have h1 := List.all_eq_true.mp h.2 a ha
-    have h2 := List.all_eq_true.mp h1 x hx
-    have h3 := List.all_eq_true.mp h2 d hd
-    simpa using h3
+    simp only [opWfB] at h
+    exact fun x hx => by simpa using List.all_eq_true.mp h x hx
   | update => trivial
   | lock => trivial
   | unlock => trivial
